@@ -9,13 +9,49 @@ COQ_CHECK = "check_c04"
 COQ_CASE_TYPE = "case_t"
 TRUSTED = I.TRUSTED
 ASSUMPTIONS = ["main sampler yields len(sampler) indices per epoch", "Python int arithmetic = Z arithmetic"]
-RULE = ("random geometries N in 1..40 (thorough ..79), B<=N incl. 1 and N, drop_last on/off, drop_last_batch_size "
-        "multiples of B, three budget kinds around multiples of epoch/update/batch sizes, 0-4 configs, optional "
-        "resume; non-trivial = at least 2 updates; distinct by (N,B,drop_last,D,budget,start,#configs)")
-gen_cases = I.gen_cases
+RULE = ("random geometries N in 1..40 (thorough ..79, some 80..300 with up to 6 configs), B<=N incl. 1 and N, drop_last "
+        "on/off, drop_last_batch_size multiples of B, three budget kinds around multiples of epoch/update/batch sizes, "
+        "0-4 configs (some with an order that changes on every pass), optional resume; plus: constructor-argument "
+        "mutations (invalid batch sizes / drop_last_batch_size / budgets / configs / several checkpoints), several "
+        "budgets at once (assigned after construction), the real DataLoader with num_workers=0 (thorough: also 2); "
+        "non-trivial = at least 2 updates; distinct by (N,B,drop_last,D,budget,start,#configs,variant)")
 search_cases = I.search_cases
 shrink = I.shrink
 run_impl = I.run_impl
+
+
+def gen_cases(rng, tier):
+    out = I.gen_cases(rng, tier)
+    n_mut, n_multi, n_loader = (120, 60, 12) if tier == "quick" else (1200, 600, 60)
+    # constructor arguments the assertions are about
+    for _ in range(n_mut):
+        c = I.gen_bounded(rng)
+        c["mut"] = I.gen_mut(rng, c)
+        out.append(c)
+    # several budgets at once: which one ends the run
+    k = 0
+    while k < n_multi:
+        c = I.gen_bounded(rng)
+        if c["start"] is not None or c["budget"][1] == 0:
+            continue
+        spe, upe = I.geometry(c)
+        pb = {"epochs": None, "updates": None, "samples": None}
+        for kind in rng.sample(["epochs", "updates", "samples"], rng.choice([2, 2, 3])):
+            e = rng.choice([1, 1, 2, 3])
+            pb[kind] = {"epochs": e, "updates": max(1, upe * e + rng.randint(-upe, upe)),
+                        "samples": max(1, spe * e + rng.randint(-spe, spe))}[kind]
+        c["post_budget"] = pb
+        out.append(c)
+        k += 1
+    # the real DataLoader: batches as delivered = the batches of the stream
+    k = 0
+    while k < n_loader:
+        c = I.gen_bounded(rng)
+        if c["N"] <= 16 and c["budget"][1] > 0:
+            c["loader"] = 0 if (tier == "quick" or k % 3) else 2
+            out.append(c)
+            k += 1
+    return out
 
 
 def coq_applicable(case, obs):
@@ -27,7 +63,7 @@ def coq_case(case, obs):
 
 
 def main_proj(case, log):
-    return [ev[:3] for ev in log if ev[0] == "E" or ev[2] < case["dsN"]]
+    return [ev[:3] for ev in log if ev[0] == "E" or (ev[0] == "Y" and ev[2] < case["dsN"])]
 
 
 def oracle(case, obs):
@@ -35,14 +71,14 @@ def oracle(case, obs):
         return "harness exception: " + obs["harness_exception"] + obs.get("tb", "")
     e0 = I.start_epoch_of(case)
     if isinstance(e0, str) or obs["result"] in ("NotImplementedError",):
-        return None  # the constructor's answer to a checkpoint is C06's business
+        return None  # the constructor's answer to its arguments / a checkpoint: correspondence with the model, C06
     if obs["result"] == "AssertionError" and not obs["log"]:
         return None
     if obs["result"] == "RUNAWAY":
         return f"stream does not end (more than {I.MAX_EVENTS} events)"
     if obs["result"] != "ok":
         return "iteration raised " + obs["result"]
-    exp = I.spec_stream(case, e0)
+    exp = I.spec_stream(case, e0, pass0=obs.get("pass0"))
     a, b = main_proj(case, exp), main_proj(case, obs["log"])
     if a != b:
         k = next((i for i in range(min(len(a), len(b))) if a[i] != b[i]), min(len(a), len(b)))
@@ -53,6 +89,10 @@ def oracle(case, obs):
     ys = [ev for ev in obs["log"] if ev[0] == "Y"]
     if ys and not ys[-1][1]:
         return "stream does not end on a batch boundary"
+    # "always ends", quantitatively: the explicit bounds of theorem c04_yield_bound
+    msg = bound_violation(case, e0, ys)
+    if msg:
+        return msg
     if isinstance(obs.get("batches"), list):
         flat = [i for bt in obs["batches"] for i in bt]
         if flat != [ev[2] for ev in ys]:
@@ -67,17 +107,53 @@ def oracle(case, obs):
                 cur = []
         if cuts != obs["batches"]:
             return "batch sampler cuts differ from the is_full_batch flags"
+    if case.get("loader") is not None:
+        lb = obs.get("loader_batches")
+        if not isinstance(lb, list):
+            return f"DataLoader(num_workers={case['loader']}) failed: {lb}"
+        got = [bt for bt in lb if bt[0] == 0]
+        want = [bt for bt in I.expected_loader_batches(case, exp) if bt[0] == 0]
+        if got != want:
+            k = next((i for i in range(min(len(got), len(want))) if got[i] != want[i]), min(len(got), len(want)))
+            return (f"DataLoader(num_workers={case['loader']}) main batch {k}: expected {want[k:k + 1]} "
+                    f"got {got[k:k + 1]} ({len(want)} vs {len(got)} main batches)")
+    return None
+
+
+def bound_violation(case, e0, ys):
+    bud = I.budgets(case)
+    if any(v == 0 for v in bud.values()):
+        return None
+    spe, upe = I.geometry(case)
+    n_main = sum(1 for ev in ys if ev[2] < case["dsN"])
+    n_upd = sum(1 for ev in ys if ev[2] < case["dsN"] and ev[1])
+    slen = sum(len(s["idx"]) for s in case["sides"])
+    if bud["epochs"] is not None and e0 < bud["epochs"]:
+        if n_main > (bud["epochs"] - e0) * spe or n_upd > (bud["epochs"] - e0) * upe:
+            return f"{n_main} main indices / {n_upd} updates exceed the epochs budget {bud['epochs']} from epoch {e0}"
+    if bud["updates"] is not None and e0 * upe < bud["updates"] and n_upd > bud["updates"] - e0 * upe:
+        return f"{n_upd} updates exceed the updates budget {bud['updates']} from update {e0 * upe}"
+    if bud["samples"] is not None and e0 * spe < bud["samples"] and n_main > bud["samples"] - e0 * spe + case["B"] - 1:
+        return f"{n_main} main indices overshoot the samples budget {bud['samples']} by a batch or more"
+    if n_main > n_upd * case["B"] or len(ys) > n_main + n_upd * slen:
+        return f"{len(ys)} indices for {n_upd} updates: more than batch_size main indices or one pass per config per update"
     return None
 
 
 def features(case, obs):
-    yield "budget=" + case["budget"][0] + ("0" if case["budget"][1] == 0 else "")
+    bud = I.budgets(case)
+    yield "budget=" + "+".join(k for k in ("epochs", "updates", "samples") if bud[k] is not None) + \
+        ("0" if any(v == 0 for v in bud.values()) else "")
     yield "drop_last=%s" % case["drop_last"]
     yield "D=%s" % (case["D"] is not None)
     yield "configs=%d" % len(case["sides"])
     yield "start=%s" % (case["start"][0] if case["start"] else None)
     yield "result=" + obs.get("result", "harness_exception")
     yield "N%%B=%s" % ("0" if case["N"] % case["B"] == 0 else "!=0")
+    yield "shuffling_sides=%d" % sum(1 for s in case["sides"] if s.get("shuffle") is not None)
+    yield "mut=%s" % (case["mut"][0] if case.get("mut") else None)
+    yield "loader=%s" % case.get("loader")
+    yield "N>=80=%s" % (case["N"] >= 80)
 
 
 def nontrivial_key(case, obs):
@@ -85,4 +161,5 @@ def nontrivial_key(case, obs):
     if n_upd < 2:
         return None
     return (case["N"], case["B"], case["drop_last"], case["D"], tuple(case["budget"]),
-            tuple(case["start"] or ()), len(case["sides"]))
+            tuple(case["start"] or ()), len(case["sides"]),
+            tuple(sorted((case.get("post_budget") or {}).items(), key=str)), case.get("loader"))
